@@ -223,6 +223,82 @@ def one_history(args):
         shutil.rmtree(d, ignore_errors=True)
 
 
+def block_mark_history(args):
+    """the entry that opens a new block of 100 history ids is an UNCHANGED re-publish (it draws an id, stores no history
+    entry); further publishes, a quiescent restart that replays the log (no snapshot), further publishes: every stamped id
+    is new and larger than the ones before"""
+    wd, seed, offset = args
+    d = os.path.join(wd, "bm%d" % seed)
+    shutil.rmtree(d, ignore_errors=True)
+    res = {"seed": seed, "snap": 10000, "restarts": 0, "draws": 0, "publishes": 0, "killed_mid_request": 0, "classes": {"block-mark-on-unchanged-republish/offset%d" % offset}, "compactions": 0}
+    sess = None
+    try:
+        sess = noderig.NodeSession(d, snapshot_size=10000)
+        if not sess.call("barrier", min_index=1, bound_ms=15000).get("ok"):
+            res["inconclusive"] = "initial barrier failed"
+            return res
+        keys = [{"data_id": "bm%d" % i, "group": "g", "tenant": ""} for i in range(3)]
+        stamped = []          # (publish number, key name, id)
+        n = 0
+
+        def publish(k, content, expect_entry=True):
+            nonlocal n
+            n += 1
+            r = sess.call("publish", content=content, **k)
+            if not r.get("ok"):
+                return
+            res["publishes"] += 1
+            if expect_entry:
+                name = "|%s|%s" % (k["group"], k["data_id"])
+                dump = sess.call("dump", config_keys=[k], service_keys=[])
+                hist = ((dump.get("configs") or {}).get(name) or {}).get("history") or []
+                if hist:
+                    stamped.append((n, name, hist[0][0]))
+                    res["draws"] += 1
+        for i in range(offset):
+            publish(keys[i % 3], "v%d" % i)
+        publish(keys[(offset - 1) % 3], "v%d" % (offset - 1), expect_entry=False)     # same content as the key's last publish
+        for i in range(8):
+            publish(keys[i % 3], "w%d" % i)
+        sess.call("barrier", min_index=0, bound_ms=15000)
+        sess.call("sleep", ms=100)
+        if not noderig.settle_on_disk(sess, d):
+            res["inconclusive"] = "applied index did not reach the index file"
+            return res
+        sess.kill()
+        sess = noderig.NodeSession(d, snapshot_size=10000)
+        res["restarts"] += 1
+        if not sess.call("barrier", min_index=0, bound_ms=15000).get("ok"):
+            res["violations"] = [{"signature": "not-recovered-within-bound", "witness": {"history_seed": seed}}]
+            return res
+        for i in range(8):
+            publish(keys[i % 3], "x%d" % i)
+        seen = {}
+        prev = None
+        for (pn, name, ident) in stamped:
+            if ident in seen:
+                res["violations"] = [{"signature": "duplicate-id/config-history/block-mark-on-unchanged-republish",
+                                      "witness": {"id": ident, "first": seen[ident], "second": [pn, name], "unchanged_republish_was_draw": offset + 1, "restart_after_publish": offset + 9, "history_seed": seed,
+                                                  "ids_tail": [x[2] for x in stamped[-20:]]}}]
+                break
+            if prev is not None and ident < prev[2]:
+                res["violations"] = [{"signature": "id-went-backwards/config-history/block-mark-on-unchanged-republish",
+                                      "witness": {"earlier": list(prev), "later": [pn, name, ident], "unchanged_republish_was_draw": offset + 1, "restart_after_publish": offset + 9, "history_seed": seed,
+                                                  "ids_tail": [x[2] for x in stamped[-20:]]}}]
+                break
+            seen[ident] = [pn, name]
+            prev = (pn, name, ident)
+        res["classes"] = sorted(res["classes"])
+        return res
+    except noderig.NodeDied as e:
+        res["inconclusive"] = "node session died: %s" % e
+        return res
+    finally:
+        if sess:
+            sess.kill()
+        shutil.rmtree(d, ignore_errors=True)
+
+
 def cluster_run(args):
     """several nodes drawing from the same named sequence (MCP server ids through each node's console API) and stamping
     configuration history ids while the leader is killed and restarted"""
@@ -392,7 +468,8 @@ def run(tier, seed):
         rnd = random.Random(seed)
         jobs = [(wd, seed * 100000 + i, rnd.choice([25, 40, 60]), rnd.choice([5, 13, 25, 60])) for i in range(n)]
         with ThreadPoolExecutor(max_workers=common.NCPU) as ex:
-            results = list(ex.map(one_history, jobs))
+            bm = [ex.submit(block_mark_history, (wd, seed * 100000 + 70000 + i, [99, 100, 101, 199, 200, 201][i % 6])) for i in range(3 if tier == "quick" else 12)]
+            results = list(ex.map(one_history, jobs)) + [f.result() for f in bm]
         agg = {"restarts": 0, "draws": 0, "publishes": 0, "killed_mid_request": 0, "histories_with_compaction": 0}
         for r in results:
             out.evaluations += 1
